@@ -88,7 +88,12 @@ fn serialize_cluster_tail(
     raw_data_size: Size,
     ser: &mut Serializer,
 ) -> std::io::Result<()> {
-    let offset_size = needed_bytes(cluster.data_size().into_u64());
+    // The same width is used for the stored (raw) size, which is larger than the data size
+    // when compression expands the data.
+    let offset_size = needed_bytes(std::cmp::max(
+        cluster.data_size().into_u64(),
+        raw_data_size.into_u64(),
+    ));
     let cluster_header = ClusterHeader::new(
         compression.into(),
         offset_size,
